@@ -132,7 +132,7 @@ func C12() *clustermc.Family {
 			}
 			return 3
 		},
-		Env:     clustermc.EnvOpts{BindOK: true, BindFail: true, Terminate: true, DeleteNode: true},
+		Env:     clustermc.EnvOpts{BindOK: true, BindFail: true, BindPartial: true, Terminate: true, DeleteNode: true},
 		Oracles: []clustermc.Oracle{oracle.HandoffOracle()},
 	}
 }
